@@ -20,10 +20,24 @@ func vhBuildC04(g *vhDigits, depth, maxw int, label string) Stack {
 		s = Basic()
 	}
 	cfg, _ := s.config()
+	// options and the operator symbol are not carried by Unmarshal, and none
+	// of them may disturb it: all symbolic at the root, by digit below it
 	if label == "" {
-		cfg.opt = cfgFlag(nondetUint16()) & cfold
-	} else if g.next(3) == 0 {
-		cfg.opt = cfold
+		cfg.opt = cfgFlag(nondetUint16()) & vhOptMask
+	} else {
+		switch g.next(7) {
+		case 0:
+			cfg.opt = cfold
+		case 1:
+			cfg.opt = ronly
+		case 2:
+			cfg.opt = nspad | parens | lonce
+		case 3:
+			cfg.opt = negidx | fwdidx | nnest | cfold
+		}
+	}
+	if cfg.typ != list && g.next(4) == 0 {
+		cfg.sym = "&&"
 	}
 	w := g.next(maxw + 1)
 	for i := 0; i < w; i++ {
@@ -139,7 +153,7 @@ func vhTreeSame(a, b any, id string) {
 		if !ok2 {
 			return
 		}
-		verifAssert(vhEqFold(sa.Kind(), sb.Kind()), id+"/kind")
+		verifAssert(sa.stackType() == sb.stackType(), id+"/kind")
 		verifAssert(sa.Len() == sb.Len(), id+"/len")
 		if sa.Len() != sb.Len() {
 			return
@@ -173,7 +187,7 @@ func vhShape(s Stack, u []any, id string) {
 		return
 	}
 	lab, ok := u[0].(string)
-	verifAssert(ok && vhEqFold(lab, s.Kind()), id+"/label")
+	verifAssert(ok && vhEqFold(lab, s.stackType().String()), id+"/label")
 	for i := 0; i < s.Len(); i++ {
 		el := (*s.stack)[i+1]
 		if sub, ok := vhStackOf(el); ok {
